@@ -798,10 +798,31 @@ def translate_td(repo: Path):
                 guards.append(_src(n.test))
     if len(guards) != 3:
         raise T1Unrecognised(file, fn[0].lineno, f"expected three guarded removals of renamed keys, found {len(guards)}")
+    # every attribute hook lookup of the structure generator survives the signal that cuts reference cycles: it is
+    # find_structure_handler(...) (which catches RecursionError) or a converter.get_structure_hook(...) inside `try: ... except RecursionError:`
+    parents = {}
+    for n in ast.walk(fn[0]):
+        for ch in ast.iter_child_nodes(n):
+            parents[ch] = n
+    lookups, unguarded = 0, 0
+    for n in ast.walk(fn[0]):
+        if isinstance(n, ast.Call) and _src(n.func) in ("converter.get_structure_hook", "converter._structure_func.dispatch"):
+            lookups += 1
+            cur, ok = n, False
+            while cur in parents:
+                par = parents[cur]
+                if isinstance(par, ast.Try) and cur in par.body and any(h.type is not None and "RecursionError" in _src(h.type) for h in par.handlers):
+                    ok = True
+                    break
+                cur = par
+            unguarded += not ok
+    if lookups == 0 and "find_structure_handler(" not in _src(fn[0]):
+        raise T1Unrecognised(file, fn[0].lineno, "no attribute hook lookup found in the TypedDict structure generator")
+    catch = unguarded == 0
     if all(g == "override.rename is not None and kn != an" for g in guards):
-        return {"skip_self_rename": True}
+        return {"skip_self_rename": True, "lookups_catch_cycles": catch}
     if all(g == "override.rename is not None" for g in guards):
-        return {"skip_self_rename": False}
+        return {"skip_self_rename": False, "lookups_catch_cycles": catch}
     raise T1Unrecognised(file, fn[0].lineno, f"removal guards differ: {guards}")
 
 
@@ -810,7 +831,9 @@ def emit_gen(g) -> str:
             f"Definition src_recheck : bool := {_coq_bool(g['detailed_rechecks_errors'])}.\n"
             f"Definition src_kw_last : bool := {_coq_bool(g['fast_kw_last'])}.\n"
             f"Definition src_td_skip_self_rename : bool := {_coq_bool(g['td']['skip_self_rename'])}.\n"
-            f"Definition src_tuple_by_kw : bool := {_coq_bool(g['tuple_by_kw'])}.\n")
+            f"Definition src_tuple_by_kw : bool := {_coq_bool(g['tuple_by_kw'])}.\n"
+            "(* gen/typeddicts.py: every attribute hook lookup of the structure generator (both validation modes) catches the RecursionError that signals a reference cycle *)\n"
+            f"Definition src_td_structure_lookups_catch_cycles : bool := {_coq_bool(g['td']['lookups_catch_cycles'])}.\n")
 
 
 # ------------------------------------------------------- strategies/_unions.py
